@@ -17,11 +17,25 @@ import DepLogic.Proofs.MarkerEngineStep
     markers of its final list, or the constructor applied to a final list with >= 2 entries
     none of which is the absorbing element — never a raw zero- or one-element list;
   * `and_neutral` / `or_neutral`: Empty/Any operands are absorbed or dropped by `&`/`|`
-    themselves (the result is the other operand or the absorbing element, unchanged).
+    themselves (the result is the other operand or the absorbing element, unchanged);
+  * `and_single_shape` / `or_single_shape` (with `singleAnd_pair_distinct`, `singleOr_pair_distinct`,
+    `flatten_pair`): `&` / `|` of two single markers is either the one marker the merge tables
+    produce or a compound of exactly the two operands, which are then different single markers —
+    never a one-child compound (what defect D23 violated).
 
-  The remaining obligation (no same-kind nesting and no neutral child inside the final list)
-  is decided on every run by the normal-form oracle on the implementation's results and by the
-  structural correspondence of those results with this model (streams `C15.expr`, `C15.raw`).
+  * FULL normal form for flat operands, for EVERY fuel: `multiOf_flat` / `unionOfList_flat`
+    (`MultiMarker.of` / `MarkerUnion.of` over single markers return Empty, Any, one of them, or a
+    compound of >= 2 different single markers — the loops only ever hold single markers, so this does
+    not depend on convergence), and through the public operators: `and_flat` (`a & b` for flat
+    conjunctions: atoms, grouped atoms, conjunctions of them) and `or_flat` (`a | b` for flat
+    disjunctions), fuel >= 6; the dispatch goes through `intersection`/`dnf` resp. `union()`/`cnf`,
+    `unwrapSingletons` and the least-complexity choice (`dnf_flat`, `cnf_flat`, `unionOfList_one`,
+    `multiOf_one`, `intersection_flat`, `unionOf_flat`).
+
+  The remaining obligation (mixed operands: disjunctions of conjunctions and deeper — no same-kind
+  nesting and no neutral child inside the final list there) is decided on every run by the
+  normal-form oracle on the implementation's results and by the structural correspondence of those
+  results with this model (streams `C15.expr`, `C15.raw`).
 -/
 namespace DepLogic
 namespace C15
@@ -134,6 +148,678 @@ theorem or_neutral (fuel : Nat) (a : M) :
     (a.isSingle = true → M.or (fuel + 1) a .empty = a ∧ M.or (fuel + 1) a .any = .any) := by
   refine ⟨by simp [M.or], by simp [M.or], ?_⟩
   intro h; cases a <;> simp [isSingle] at h <;> simp [M.or]
+
+/-! ### the single-marker layer: `&` / `|` of two single markers never builds a one-child compound
+
+  (Exactly what defect D23 violated: after the `fix:` 4fb0145 an atom whose specifier view is not exact
+  was not merged with itself any more, `MultiMarker(m, m)` de-duplicated, and the result had one child.
+  With the idempotent branch of `_merge_single_markers` (a389c12) the pair handed to the constructor is
+  always two different markers.) -/
+
+theorem singleAnd_pair_distinct (x y p q : M) (hx : x.isSingle = true) (hy : y.isSingle = true)
+    (h : singleAnd x y = .pair p q) : beq p q = false ∧ p.isSingle = true ∧ q.isSingle = true := by
+  cases x <;> simp [isSingle] at hx <;> cases y <;> simp [isSingle] at hy <;>
+    simp only [singleAnd] at h
+  · -- atom, atom
+    rename_i a b
+    cases hm : mergeSingle a b true with
+    | some m => simp [hm] at h
+    | none =>
+      simp only [hm, SRes.pair.injEq] at h
+      obtain ⟨rfl, rfl⟩ := h
+      refine ⟨?_, rfl, rfl⟩
+      unfold mergeSingle at hm
+      by_cases hb : a.beq b = true
+      · simp [hb] at hm
+      · simpa [beq] using hb
+  all_goals
+    (repeat' split at h) <;> (try cases h) <;> simp_all [beq, isSingle]
+
+theorem singleOr_pair_distinct (x y p q : M) (hx : x.isSingle = true) (hy : y.isSingle = true)
+    (h : singleOr x y = .pair p q) : beq p q = false ∧ p.isSingle = true ∧ q.isSingle = true := by
+  cases x <;> simp [isSingle] at hx <;> cases y <;> simp [isSingle] at hy <;>
+    simp only [singleOr] at h
+  · rename_i a b
+    cases hm : mergeSingle a b false with
+    | some m => simp [hm] at h
+    | none =>
+      simp only [hm, SRes.pair.injEq] at h
+      obtain ⟨rfl, rfl⟩ := h
+      refine ⟨?_, rfl, rfl⟩
+      unfold mergeSingle at hm
+      by_cases hb : a.beq b = true
+      · simp [hb] at hm
+      · simpa [beq] using hb
+  all_goals
+    (repeat' split at h) <;> (try cases h) <;> simp_all [beq, isSingle]
+
+/-- two different single markers survive the constructor as exactly two children -/
+theorem flatten_pair (b : Bool) (fuel : Nat) (p q : M) (hp : p.isSingle = true) (hq : q.isSingle = true)
+    (hpq : beq p q = false) : flattenInto b (fuel + 1) [p, q] [] = [p, q] := by
+  have hqp : beq q p = false := by rw [beq_symm]; exact hpq
+  cases b <;> cases p <;> simp [isSingle] at hp <;> cases q <;> simp [isSingle] at hq <;>
+    simp [flattenInto, addNew, memB, hqp]
+
+/-- `a & b` for single markers: `_merge`d into one marker, or a conjunction of exactly the two, distinct -/
+theorem and_single_shape (fuel : Nat) (a b : M) (ha : a.isSingle = true) (hb : b.isSingle = true) :
+    (∃ m, singleAnd a b = .done m ∧ M.and (fuel + 2) a b = m) ∨
+    (∃ p q, singleAnd a b = .pair p q ∧ M.and (fuel + 2) a b = .multi [p, q] ∧ beq p q = false ∧
+      p.isSingle = true ∧ q.isSingle = true) := by
+  cases hs : singleAnd a b with
+  | done m =>
+    left
+    refine ⟨m, rfl, ?_⟩
+    cases a <;> simp [isSingle] at ha <;> cases b <;> simp [isSingle] at hb <;> simp [M.and, hs]
+  | pair p q =>
+    right
+    obtain ⟨hpq, hp, hq⟩ := singleAnd_pair_distinct a b p q ha hb hs
+    refine ⟨p, q, rfl, ?_, hpq, hp, hq⟩
+    have : M.and (fuel + 2) a b = mkMulti (fuel + 1) [p, q] := by
+      cases a <;> simp [isSingle] at ha <;> cases b <;> simp [isSingle] at hb <;> simp [M.and, hs]
+    rw [this, mkMulti, flatten_pair true fuel p q hp hq hpq]
+
+theorem or_single_shape (fuel : Nat) (a b : M) (ha : a.isSingle = true) (hb : b.isSingle = true) :
+    (∃ m, singleOr a b = .done m ∧ M.or (fuel + 2) a b = m) ∨
+    (∃ p q, singleOr a b = .pair p q ∧ M.or (fuel + 2) a b = .union [p, q] ∧ beq p q = false ∧
+      p.isSingle = true ∧ q.isSingle = true) := by
+  cases hs : singleOr a b with
+  | done m =>
+    left
+    refine ⟨m, rfl, ?_⟩
+    cases a <;> simp [isSingle] at ha <;> cases b <;> simp [isSingle] at hb <;> simp [M.or, hs]
+  | pair p q =>
+    right
+    obtain ⟨hpq, hp, hq⟩ := singleOr_pair_distinct a b p q ha hb hs
+    refine ⟨p, q, rfl, ?_, hpq, hp, hq⟩
+    have : M.or (fuel + 2) a b = mkUnion (fuel + 1) [p, q] := by
+      cases a <;> simp [isSingle] at ha <;> cases b <;> simp [isSingle] at hb <;> simp [M.or, hs]
+    rw [this, mkUnion, flatten_pair false fuel p q hp hq hpq]
+
+/-! ### flat operand lists: `MultiMarker.of` / `MarkerUnion.of` over single markers, for EVERY fuel
+
+  When every operand is a single marker the fixpoint loops only ever hold single markers (what is
+  replaced is single, what is appended comes from the operands), so the normal form of the result does
+  not depend on the loop having converged: no termination measure is needed. -/
+
+def AllSingle (l : List M) : Prop := ∀ x ∈ l, x.isSingle = true
+
+/-- the normal form C15 names, for a compound over single markers -/
+def FlatNF (isAnd : Bool) (r : M) : Prop :=
+  r = .empty ∨ r = .any ∨ r.isSingle = true ∨
+  ∃ l, r = (if isAnd then .multi l else .union l) ∧ 2 ≤ l.length ∧ NoDup l ∧ AllSingle l
+
+theorem allSingle_nil : AllSingle [] := by intro x hx; cases hx
+
+theorem allSingle_append_one (l : List M) (x : M) (h : AllSingle l) (hx : x.isSingle = true) : AllSingle (l ++ [x]) := by
+  intro y hy
+  rcases List.mem_append.1 hy with h1 | h1
+  · exact h y h1
+  · simp at h1; rw [h1]; exact hx
+
+theorem addNew_allSingle (acc : List M) (x : M) (h : AllSingle acc) (hx : x.isSingle = true) : AllSingle (addNew acc x) := by
+  unfold addNew; split
+  · exact h
+  · exact allSingle_append_one acc x h hx
+
+theorem foldl_addNew_allSingle (xs acc : List M) (hx : AllSingle xs) (ha : AllSingle acc) :
+    AllSingle (xs.foldl addNew acc) := by
+  induction xs generalizing acc with
+  | nil => exact ha
+  | cons x xs ih =>
+    exact ih _ (fun y hy => hx y (List.mem_cons_of_mem _ hy)) (addNew_allSingle acc x ha (hx x (List.mem_cons_self ..)))
+
+/-- on single markers `flatten_items` has nothing to splice -/
+theorem flatten_singles (b : Bool) (fuel : Nat) (items acc : List M) (hi : AllSingle items) :
+    flattenInto b fuel items acc = items.foldl addNew acc := by
+  cases fuel with
+  | zero => rfl
+  | succ n =>
+    simp only [flattenInto]
+    induction items generalizing acc with
+    | nil => rfl
+    | cons x xs ih =>
+      have hx := hi x (List.mem_cons_self ..)
+      have hxs : AllSingle xs := fun y hy => hi y (List.mem_cons_of_mem _ hy)
+      cases b <;> cases x <;> simp [isSingle] at hx <;> simp only [List.foldl_cons] <;> exact ih _ hxs
+
+theorem flatten_allSingle (b : Bool) (fuel : Nat) (items : List M) (hi : AllSingle items) :
+    AllSingle (flattenInto b fuel items []) := by
+  rw [flatten_singles b fuel items [] hi]
+  exact foldl_addNew_allSingle items [] hi allSingle_nil
+
+/-- nothing is dropped from a duplicate-free list -/
+theorem foldl_addNew_id (l acc : List M) (h : NoDup (acc ++ l)) : l.foldl addNew acc = acc ++ l := by
+  induction l generalizing acc with
+  | nil => simp
+  | cons x xs ih =>
+    simp only [List.foldl_cons]
+    have hx : memB x acc = false := by
+      induction acc with
+      | nil => simp [memB]
+      | cons a as iha =>
+        simp only [List.cons_append, NoDup] at h
+        have h1 := h.1
+        simp only [memB, List.any_append, List.any_cons, Bool.or_eq_false_iff] at h1
+        have := iha h.2
+        simp only [memB, List.any_cons, Bool.or_eq_false_iff] at this ⊢
+        exact ⟨by rw [beq_symm]; exact h1.2.1, this⟩
+    have : addNew acc x = acc ++ [x] := by simp [addNew, hx]
+    rw [this, ih (acc ++ [x]) (by simpa using h)]
+    simp
+
+theorem mk_flat (b : Bool) (fuel : Nat) (l : List M) (hs : AllSingle l) (hd : NoDup l) :
+    flattenInto b fuel l [] = l := by
+  rw [flatten_singles b fuel l [] hs, foldl_addNew_id l [] (by simpa using hd)]
+  simp
+
+theorem setAt_allSingle : ∀ (l : List M) (i : Nat) (m : M), AllSingle l → m.isSingle = true → AllSingle (setAt l i m)
+  | [], _, _, _, _ => by simp [setAt]; exact allSingle_nil
+  | x :: xs, 0, m, hl, hm => by
+    intro y hy
+    simp only [setAt, List.mem_cons] at hy
+    rcases hy with rfl | hy
+    · exact hm
+    · exact hl y (List.mem_cons_of_mem _ hy)
+  | x :: xs, i + 1, m, hl, hm => by
+    intro y hy
+    simp only [setAt, List.mem_cons] at hy
+    rcases hy with rfl | hy
+    · exact hl _ (List.mem_cons_self ..)
+    · exact setAt_allSingle xs i m (fun z hz => hl z (List.mem_cons_of_mem _ hz)) hm y hy
+
+theorem scan_allSingle (f : M → Step) (hf : ∀ mark m, mark.isSingle = true → f mark = .replace m → m.isSingle = true) :
+    ∀ (whole : List M) (i : Nat) (rest new' : List M), AllSingle whole → AllSingle rest →
+      scan f whole i rest = some (some new') → AllSingle new'
+  | _, _, [], _, _, _, h => by simp [scan] at h
+  | whole, i, mark :: rest, new', hw, hr, h => by
+    simp only [scan] at h
+    cases hfm : f mark with
+    | next =>
+      rw [hfm] at h
+      exact scan_allSingle f hf whole (i + 1) rest new' hw (fun y hy => hr y (List.mem_cons_of_mem _ hy)) h
+    | replace m =>
+      rw [hfm] at h
+      simp only [Option.some.injEq] at h
+      subst h
+      exact setAt_allSingle whole i m hw (hf mark m (hr mark (List.mem_cons_self ..)) hfm)
+    | abort => rw [hfm] at h; cases h
+
+theorem decideWith_single (isAnd : Bool) (combine : M → M → M) (simplify : M → M → Option M) (marker mark m : M)
+    (hm : mark.isSingle = true) (h : decideWith isAnd combine simplify mark marker = .replace m) : m.isSingle = true := by
+  unfold decideWith at h
+  rw [if_pos hm] at h
+  simp only at h
+  by_cases c1 : (if isAnd = true then (combine mark marker).isEmpty else (combine mark marker).isAny) = true
+  · rw [if_pos c1] at h; cases h
+  · rw [if_neg c1] at h
+    by_cases c2 : (combine mark marker).isSingle = true
+    · rw [if_pos c2] at h; cases h; exact c2
+    · rw [if_neg c2] at h; cases h
+
+/-- one step of the `for marker in old_markers` loop keeps the state a duplicate-free list of single markers -/
+theorem passStep_inv (isAnd : Bool) (combine : M → M → M) (simplify : M → M → Option M) (fuel : Nat)
+    (new : List M) (marker : M) (hn : AllSingle new) (hd : NoDup new) (hm : marker.isSingle = true) :
+    ∀ out, passStep isAnd (decideWith isAnd combine simplify) (fun l => flattenInto isAnd fuel l []) (some new) marker = some out →
+      AllSingle out ∧ NoDup out := by
+  intro out h
+  simp only [passStep] at h
+  by_cases hmem : memB marker new = true
+  · rw [if_pos hmem] at h; cases h; exact ⟨hn, hd⟩
+  · rw [if_neg hmem] at h
+    by_cases hskip : (if isAnd = true then marker.isAny else marker.isEmpty) = true
+    · rw [if_pos hskip] at h; cases h; exact ⟨hn, hd⟩
+    · rw [if_neg hskip] at h
+      cases hs : scan (fun mark => decideWith isAnd combine simplify mark marker) new 0 new with
+      | none => rw [hs] at h; cases h
+      | some r =>
+        rw [hs] at h
+        cases r with
+        | some new' =>
+          simp only [Option.some.injEq] at h
+          subst h
+          have h1 := scan_allSingle (fun mark => decideWith isAnd combine simplify mark marker)
+            (fun mark m hmk hr => decideWith_single isAnd combine simplify marker mark m hmk hr) new 0 new new' hn hn hs
+          exact ⟨flatten_allSingle isAnd fuel new' h1, flatten_nodup isAnd fuel new' [] trivial⟩
+        | none =>
+          simp only [Option.some.injEq] at h
+          subst h
+          exact ⟨allSingle_append_one new marker hn hm, nodup_append_one new marker hd (by simpa using hmem)⟩
+
+theorem pass_inv (isAnd : Bool) (combine : M → M → M) (simplify : M → M → Option M) (fuel : Nat) :
+    ∀ (old st out : List M), AllSingle old → AllSingle st → NoDup st →
+      old.foldl (passStep isAnd (decideWith isAnd combine simplify) (fun l => flattenInto isAnd fuel l [])) (some st) = some out →
+      AllSingle out ∧ NoDup out
+  | [], st, out, _, hs, hd, h => by simp at h; subst h; exact ⟨hs, hd⟩
+  | m :: rest, st, out, ho, hs, hd, h => by
+    simp only [List.foldl_cons] at h
+    cases hst : passStep isAnd (decideWith isAnd combine simplify) (fun l => flattenInto isAnd fuel l []) (some st) m with
+    | none =>
+      rw [hst] at h
+      have : ∀ l : List M, l.foldl (passStep isAnd (decideWith isAnd combine simplify) (fun l => flattenInto isAnd fuel l [])) none = none := by
+        intro l; induction l with
+        | nil => rfl
+        | cons _ _ ih => simpa [passStep] using ih
+      rw [this] at h; cases h
+    | some st' =>
+      rw [hst] at h
+      obtain ⟨h1, h2⟩ := passStep_inv isAnd combine simplify fuel st m hs hd (ho m (List.mem_cons_self ..)) st' hst
+      exact pass_inv isAnd combine simplify fuel rest st' out (fun y hy => ho y (List.mem_cons_of_mem _ hy)) h1 h2 h
+
+theorem multiPass_inv (fuel : Nat) (old out : List M) (ho : AllSingle old) (hd : NoDup old)
+    (h : multiPass fuel old = some out) : AllSingle out ∧ NoDup out := by
+  cases fuel with
+  | zero => simp [multiPass] at h; subst h; exact ⟨ho, hd⟩
+  | succ n =>
+    simp only [multiPass] at h
+    exact pass_inv true (M.and n) (intersectSimplify n) n old [] out ho allSingle_nil trivial h
+
+theorem unionPass_inv (fuel : Nat) (old out : List M) (ho : AllSingle old) (hd : NoDup old)
+    (h : unionPass fuel old = some out) : AllSingle out ∧ NoDup out := by
+  cases fuel with
+  | zero => simp [unionPass] at h; subst h; exact ⟨ho, hd⟩
+  | succ n =>
+    simp only [unionPass] at h
+    exact pass_inv false (M.or n) (unionSimplify n) n old [] out ho allSingle_nil trivial h
+
+theorem multiLoop_inv : ∀ (fuel : Nat) (old new out : List M), AllSingle new → NoDup new →
+    multiLoop fuel old new = some out → AllSingle out ∧ NoDup out
+  | 0, _, new, out, hs, hd, h => by simp [multiLoop] at h; subst h; exact ⟨hs, hd⟩
+  | fuel + 1, old, new, out, hs, hd, h => by
+    simp only [multiLoop] at h
+    split at h
+    · cases h; exact ⟨hs, hd⟩
+    · cases hp : multiPass fuel new with
+      | none => simp [hp] at h
+      | some new' =>
+        simp only [hp] at h
+        obtain ⟨h1, h2⟩ := multiPass_inv fuel new new' hs hd hp
+        exact multiLoop_inv fuel new new' out h1 h2 h
+
+theorem unionLoop_inv : ∀ (fuel : Nat) (old new out : List M), AllSingle new → NoDup new →
+    unionLoop fuel old new = some out → AllSingle out ∧ NoDup out
+  | 0, _, new, out, hs, hd, h => by simp [unionLoop] at h; subst h; exact ⟨hs, hd⟩
+  | fuel + 1, old, new, out, hs, hd, h => by
+    simp only [unionLoop] at h
+    split at h
+    · cases h; exact ⟨hs, hd⟩
+    · cases hp : unionPass fuel new with
+      | none => simp [hp] at h
+      | some new' =>
+        simp only [hp] at h
+        obtain ⟨h1, h2⟩ := unionPass_inv fuel new new' hs hd hp
+        exact unionLoop_inv fuel new new' out h1 h2 h
+
+/-- **C15 for flat conjunctions, every fuel**: `MultiMarker.of` over single markers returns Empty, Any, one of
+    them, or a conjunction of at least two different single markers — whether or not the loop converged -/
+theorem multiOf_flat (fuel : Nat) (ms : List M) (hs : AllSingle ms) : FlatNF true (multiOf (fuel + 1) ms) := by
+  have h0s := flatten_allSingle true fuel ms hs
+  have h0d := flatten_nodup true fuel ms [] trivial
+  simp only [multiOf]
+  cases hl : multiLoop fuel [] (flattenInto true fuel ms []) with
+  | none => left; rfl
+  | some new =>
+    obtain ⟨h1, h2⟩ := multiLoop_inv fuel [] _ new h0s h0d hl
+    simp only
+    split
+    · left; rfl
+    · match new, h1, h2 with
+      | [], _, _ => right; left; rfl
+      | [m], h1, _ => right; right; left; exact h1 m (List.mem_cons_self ..)
+      | a :: b :: rest, h1, h2 =>
+        right; right; right
+        refine ⟨a :: b :: rest, ?_, by simp, h2, h1⟩
+        simp only [mkMulti, if_true]
+        rw [mk_flat true fuel _ h1 h2]
+
+/-- **C15 for flat disjunctions, every fuel** -/
+theorem unionOfList_flat (fuel : Nat) (ms : List M) (hs : AllSingle ms) : FlatNF false (unionOfList (fuel + 1) ms) := by
+  have h0s := flatten_allSingle false fuel ms hs
+  have h0d := flatten_nodup false fuel ms [] trivial
+  simp only [unionOfList]
+  cases hl : unionLoop fuel [] (flattenInto false fuel ms []) with
+  | none => right; left; rfl
+  | some new =>
+    obtain ⟨h1, h2⟩ := unionLoop_inv fuel [] _ new h0s h0d hl
+    simp only
+    split
+    · right; left; rfl
+    · match new, h1, h2 with
+      | [], _, _ => left; rfl
+      | [m], h1, _ => right; right; left; exact h1 m (List.mem_cons_self ..)
+      | a :: b :: rest, h1, h2 =>
+        right; right; right
+        refine ⟨a :: b :: rest, ?_, by simp, h2, h1⟩
+        simp only [mkUnion, Bool.false_eq_true, if_false]
+        rw [mk_flat false fuel _ h1 h2]
+
+/-! ### closure: `&` on flat conjunctions, `|` on flat disjunctions (the public operators, fuel ≥ 6) -/
+
+theorem atom_beq_refl (a : Atom) : a.beq a = true := by simp [Atom.beq]
+
+mutual
+theorem mbeq_refl : ∀ (x : M), beq x x = true
+  | .any | .empty => rfl
+  | .expr a => by simp [beq, atom_beq_refl]
+  | .eqU _ _ | .neM _ _ => by simp [beq, setEq]
+  | .multi a => by simp only [beq]; exact mbeqList_refl a
+  | .union a => by simp only [beq]; exact mbeqList_refl a
+theorem mbeqList_refl : ∀ (xs : List M), beqList xs xs = true
+  | [] => rfl
+  | x :: xs => by simp only [beqList, Bool.and_eq_true]; exact ⟨mbeq_refl x, mbeqList_refl xs⟩
+end
+
+theorem dnf_single (f : Nat) (x : M) (hx : x.isSingle = true) : dnf f x = x := by
+  cases f <;> cases x <;> simp [isSingle] at hx <;> simp [dnf]
+
+theorem cnf_single (f : Nat) (x : M) (hx : x.isSingle = true) : cnf f x = x := by
+  cases f <;> cases x <;> simp [isSingle] at hx <;> simp [cnf]
+
+theorem unionChildren_single (x : M) (hx : x.isSingle = true) : unionChildren x = [x] := by
+  cases x <;> simp [isSingle] at hx <;> rfl
+
+theorem multiChildren_single (x : M) (hx : x.isSingle = true) : multiChildren x = [x] := by
+  cases x <;> simp [isSingle] at hx <;> rfl
+
+theorem product_singletons : ∀ (l : List M), product (l.map fun x => [x]) = [l]
+  | [] => rfl
+  | x :: xs => by simp [product, product_singletons xs]
+
+theorem map_dnf_singles (f : Nat) : ∀ (l : List M), AllSingle l →
+    (l.map (dnf f)).map unionChildren = l.map fun x => [x]
+  | [], _ => rfl
+  | x :: xs, h => by
+    have hx := h x (List.mem_cons_self ..)
+    simp only [List.map_cons, dnf_single f x hx, unionChildren_single x hx]
+    rw [map_dnf_singles f xs (fun y hy => h y (List.mem_cons_of_mem _ hy))]
+
+theorem map_cnf_singles (f : Nat) : ∀ (l : List M), AllSingle l →
+    (l.map (cnf f)).map multiChildren = l.map fun x => [x]
+  | [], _ => rfl
+  | x :: xs, h => by
+    have hx := h x (List.mem_cons_self ..)
+    simp only [List.map_cons, cnf_single f x hx, multiChildren_single x hx]
+    rw [map_cnf_singles f xs (fun y hy => h y (List.mem_cons_of_mem _ hy))]
+
+/-- `dnf` of a flat conjunction is `MarkerUnion.of(MultiMarker.of(*children))` -/
+theorem dnf_flat (g : Nat) (l : List M) (hs : AllSingle l) :
+    dnf (g + 1) (.multi l) = unionOfList g [multiOf g l] := by
+  simp only [dnf, map_dnf_singles g l hs, product_singletons, List.map_cons, List.map_nil]
+
+theorem cnf_flat (g : Nat) (l : List M) (hs : AllSingle l) :
+    cnf (g + 1) (.union l) = multiOf g [unionOfList g l] := by
+  simp only [cnf, map_cnf_singles g l hs, product_singletons, List.map_cons, List.map_nil]
+
+theorem memB_nil (x : M) : memB x [] = false := rfl
+
+/-- `MarkerUnion.of(m)` of one marker that is not itself a union is that marker -/
+theorem unionOfList_one (f : Nat) (r : M) (hr : r.isUnion = false) : unionOfList (f + 3) [r] = r := by
+  cases r with
+  | union _ => simp [isUnion] at hr
+  | empty =>
+    cases f <;>
+      simp [unionOfList, unionLoop, unionPass, flattenInto, addNew, memB_nil, passStep, beqList, isEmpty]
+  | any =>
+    simp [unionOfList, unionLoop, unionPass, flattenInto, addNew, memB_nil, passStep, scan, beqList, isEmpty, isAny, beq]
+  | expr a =>
+    simp [unionOfList, unionLoop, unionPass, flattenInto, addNew, memB_nil, passStep, scan, beqList, isEmpty, isAny, beq, atom_beq_refl]
+  | eqU n vs =>
+    simp [unionOfList, unionLoop, unionPass, flattenInto, addNew, memB_nil, passStep, scan, beqList, isEmpty, isAny, beq, setEq]
+  | neM n vs =>
+    simp [unionOfList, unionLoop, unionPass, flattenInto, addNew, memB_nil, passStep, scan, beqList, isEmpty, isAny, beq, setEq]
+  | multi l =>
+    simp [unionOfList, unionLoop, unionPass, flattenInto, addNew, memB_nil, passStep, scan, beqList, isEmpty, isAny, beq, mbeqList_refl]
+
+theorem multiOf_one (f : Nat) (r : M) (hr : r.isMulti = false) : multiOf (f + 3) [r] = r := by
+  cases r with
+  | multi _ => simp [isMulti] at hr
+  | any =>
+    cases f <;>
+      simp [multiOf, multiLoop, multiPass, flattenInto, addNew, memB_nil, passStep, beqList, isAny]
+  | empty =>
+    simp [multiOf, multiLoop, multiPass, flattenInto, addNew, memB_nil, passStep, scan, beqList, isEmpty, isAny, beq]
+  | expr a =>
+    simp [multiOf, multiLoop, multiPass, flattenInto, addNew, memB_nil, passStep, scan, beqList, isEmpty, isAny, beq, atom_beq_refl]
+  | eqU n vs =>
+    simp [multiOf, multiLoop, multiPass, flattenInto, addNew, memB_nil, passStep, scan, beqList, isEmpty, isAny, beq, setEq]
+  | neM n vs =>
+    simp [multiOf, multiLoop, multiPass, flattenInto, addNew, memB_nil, passStep, scan, beqList, isEmpty, isAny, beq, setEq]
+  | union l =>
+    simp [multiOf, multiLoop, multiPass, flattenInto, addNew, memB_nil, passStep, scan, beqList, isEmpty, isAny, beq, mbeqList_refl]
+
+/-- empty, universal or one single marker: what the merge tables return -/
+def Atomic (m : M) : Prop := m = .empty ∨ m = .any ∨ m.isSingle = true
+
+theorem eqReplace_atomic (n : String) (vals : List String) : Atomic (eqReplace n vals) := by
+  match vals with
+  | [] => left; rfl
+  | [v] => right; right; rfl
+  | _ :: _ :: _ => right; right; rfl
+
+theorem neReplace_atomic (n : String) (vals : List String) : Atomic (neReplace n vals) := by
+  match vals with
+  | [] => right; left; rfl
+  | [v] => right; right; rfl
+  | _ :: _ :: _ => right; right; rfl
+
+theorem fromSpecifier_atomic (name : String) (sp : ASpec) (m : M) (h : fromSpecifier name sp = some m) : Atomic m := by
+  unfold fromSpecifier at h
+  by_cases h1 : sp.isAny = true
+  · rw [if_pos h1] at h; cases h; right; left; rfl
+  · rw [if_neg h1] at h
+    by_cases h2 : sp.isEmpty = true
+    · rw [if_pos h2] at h; cases h; left; rfl
+    · rw [if_neg h2] at h
+      cases sp with
+      | gen g =>
+        simp only [Option.bind_eq_some_iff, Option.map_eq_some_iff] at h
+        obtain ⟨_, _, a, _, rfl⟩ := h
+        right; right; rfl
+      | ver v =>
+        simp only at h
+        split at h
+        · cases h
+        · simp only [Option.bind_eq_some_iff, Option.map_eq_some_iff] at h
+          obtain ⟨_, _, a, _, rfl⟩ := h
+          right; right; rfl
+
+theorem mergeSingle_atomic (a b : Atom) (isAnd : Bool) (m : M) (h : mergeSingle a b isAnd = some m) : Atomic m := by
+  unfold mergeSingle at h
+  by_cases hb : a.beq b = true
+  · rw [if_pos hb] at h; cases h; right; right; rfl
+  · rw [if_neg hb] at h
+    split at h
+    · unfold mergeSingleCore mergePythonVersion at h
+      (repeat' split at h) <;> (try cases h) <;>
+        first
+          | (right; right; rfl)
+          | exact fromSpecifier_atomic _ _ _ h
+    · cases h
+
+theorem singleAnd_done_atomic (x y m : M) (h : singleAnd x y = .done m) : Atomic m := by
+  cases x <;> cases y <;> simp only [singleAnd] at h <;> (try cases h)
+  case expr.expr a b =>
+    cases hm : mergeSingle a b true with
+    | some r => simp only [hm, SRes.done.injEq] at h; subst h; exact mergeSingle_atomic a b true r hm
+    | none => simp [hm] at h
+  all_goals
+    (repeat' split at h) <;> (try cases h) <;>
+      first
+        | exact eqReplace_atomic _ _
+        | exact neReplace_atomic _ _
+        | (left; rfl)
+        | (right; left; rfl)
+        | (right; right; rfl)
+
+theorem singleOr_done_atomic (x y m : M) (h : singleOr x y = .done m) : Atomic m := by
+  cases x <;> cases y <;> simp only [singleOr] at h <;> (try cases h)
+  case expr.expr a b =>
+    cases hm : mergeSingle a b false with
+    | some r => simp only [hm, SRes.done.injEq] at h; subst h; exact mergeSingle_atomic a b false r hm
+    | none => simp [hm] at h
+  all_goals
+    (repeat' split at h) <;> (try cases h) <;>
+      first
+        | exact eqReplace_atomic _ _
+        | exact neReplace_atomic _ _
+        | (left; rfl)
+        | (right; left; rfl)
+        | (right; right; rfl)
+
+theorem atomic_flatNF (b : Bool) (m : M) (h : Atomic m) : FlatNF b m := by
+  rcases h with h | h | h
+  · exact Or.inl h
+  · exact Or.inr (Or.inl h)
+  · exact Or.inr (Or.inr (Or.inl h))
+
+/-- a flat conjunction: a single marker, or a MultiMarker over single markers -/
+def FlatConj (m : M) : Prop := m.isSingle = true ∨ ∃ l, m = .multi l ∧ AllSingle l
+/-- a flat disjunction -/
+def FlatDisj (m : M) : Prop := m.isSingle = true ∨ ∃ l, m = .union l ∧ AllSingle l
+
+theorem flatNF_notUnion (r : M) (h : FlatNF true r) : r.isUnion = false := by
+  rcases h with rfl | rfl | h | ⟨l, rfl, _⟩
+  · rfl
+  · rfl
+  · cases r <;> simp [isSingle] at h <;> rfl
+  · rfl
+
+theorem flatNF_notMulti (r : M) (h : FlatNF false r) : r.isMulti = false := by
+  rcases h with rfl | rfl | h | ⟨l, rfl, _⟩
+  · rfl
+  · rfl
+  · cases r <;> simp [isSingle] at h <;> rfl
+  · rfl
+
+/-- the constructor flattens flat conjunctions into single markers -/
+theorem flatten_flatConj (g : Nat) : ∀ (items acc : List M), (∀ x ∈ items, FlatConj x) → AllSingle acc →
+    AllSingle (flattenInto true (g + 1) items acc) := by
+  intro items
+  simp only [flattenInto]
+  induction items with
+  | nil => intro acc _ ha; exact ha
+  | cons x xs ih =>
+    intro acc hi ha
+    simp only [List.foldl_cons]
+    apply ih _ (fun y hy => hi y (List.mem_cons_of_mem _ hy))
+    rcases hi x (List.mem_cons_self ..) with hx | ⟨l, rfl, hl⟩
+    · cases x <;> simp [isSingle] at hx <;> exact addNew_allSingle acc _ ha (by simp [isSingle])
+    · exact foldl_addNew_allSingle _ acc (flatten_allSingle true g l hl) ha
+
+theorem flatten_flatDisj (g : Nat) : ∀ (items acc : List M), (∀ x ∈ items, FlatDisj x) → AllSingle acc →
+    AllSingle (flattenInto false (g + 1) items acc) := by
+  intro items
+  simp only [flattenInto]
+  induction items with
+  | nil => intro acc _ ha; exact ha
+  | cons x xs ih =>
+    intro acc hi ha
+    simp only [List.foldl_cons]
+    apply ih _ (fun y hy => hi y (List.mem_cons_of_mem _ hy))
+    rcases hi x (List.mem_cons_self ..) with hx | ⟨l, rfl, hl⟩
+    · cases x <;> simp [isSingle] at hx <;> exact addNew_allSingle acc _ ha (by simp [isSingle])
+    · exact foldl_addNew_allSingle _ acc (flatten_allSingle false g l hl) ha
+
+/-- `intersection(a, b)` of two flat conjunctions is in normal form -/
+theorem intersection_flat (f : Nat) (a b : M) (ha : FlatConj a) (hb : FlatConj b) :
+    FlatNF true (intersection (f + 5) [a, b]) := by
+  simp only [intersection, mkMulti]
+  have hL := flatten_flatConj (f + 3) [a, b] [] (by
+    intro x hx; simp only [List.mem_cons, List.mem_nil_iff, or_false] at hx; rcases hx with rfl | rfl <;> assumption) allSingle_nil
+  rw [dnf_flat (f + 3) _ hL]
+  have hr := multiOf_flat (f + 2) _ hL
+  rw [unionOfList_one f _ (flatNF_notUnion _ hr)]
+  exact hr
+
+/-- **C15 for `&` on flat conjunctions** (atoms, grouped atoms, conjunctions of them), every fuel ≥ 6 -/
+theorem and_flat (f : Nat) (a b : M) (ha : FlatConj a) (hb : FlatConj b) : FlatNF true (M.and (f + 6) a b) := by
+  rcases ha with ha | ⟨la, rfl, hla⟩
+  · rcases hb with hb | ⟨lb, rfl, hlb⟩
+    · -- two single markers
+      rcases and_single_shape (f + 4) a b ha hb with ⟨m, hs, hm⟩ | ⟨p, q, _, hm, hpq, hp, hq⟩
+      · rw [hm]
+        exact atomic_flatNF true m (singleAnd_done_atomic a b m hs)
+      · rw [hm]
+        right; right; right
+        refine ⟨[p, q], by simp, by simp, ?_, ?_⟩
+        · simp [NoDup, memB, hpq]
+        · intro x hx; simp only [List.mem_cons, List.mem_nil_iff, or_false] at hx; rcases hx with rfl | rfl <;> assumption
+    · -- single & conjunction: MultiMarker.__rand__
+      have : M.and (f + 6) a (.multi lb) = intersection (f + 5) [.multi lb, a] := by
+        cases a <;> simp [isSingle] at ha <;> simp [M.and]
+      rw [this]
+      exact intersection_flat f _ _ (Or.inr ⟨lb, rfl, hlb⟩) (Or.inl ha)
+  · have : M.and (f + 6) (.multi la) b = intersection (f + 5) [.multi la, b] := by simp [M.and]
+    rw [this]
+    exact intersection_flat f _ _ (Or.inr ⟨la, rfl, hla⟩) hb
+
+theorem unwrap_union (k : Nat) (l : List M) (hl : AllSingle l) :
+    unwrapSingletons (k + 1) (.union l) = .union l ∨ ∃ x, l = [x] ∧ unwrapSingletons (k + 1) (.union l) = x := by
+  match l, hl with
+  | [], _ => left; rfl
+  | [x], hl =>
+    right
+    refine ⟨x, rfl, ?_⟩
+    have hx := hl x (List.mem_cons_self ..)
+    simp only [unwrapSingletons]
+    cases k <;> cases x <;> simp [isSingle] at hx <;> simp [unwrapSingletons]
+  | _ :: _ :: _, _ => left; rfl
+
+/-- `union(a, b)` of two non-empty flat disjunctions is in normal form -/
+theorem unionOf_flat (f : Nat) (a b : M) (ha : FlatDisj a) (hb : FlatDisj b) (hae : a.isEmpty = false) (hbe : b.isEmpty = false) :
+    FlatNF false (unionOf (f + 5) [a, b]) := by
+  simp only [unionOf, List.filter_cons, List.filter_nil, hae, hbe, Bool.not_false, if_true, mkUnion]
+  have hL := flatten_flatDisj (f + 3) [a, b] [] (by
+    intro x hx; simp only [List.mem_cons, List.mem_nil_iff, or_false] at hx; rcases hx with rfl | rfl <;> assumption) allSingle_nil
+  generalize flattenInto false (f + 3 + 1) [a, b] [] = L at hL
+  rcases unwrap_union (f + 4) L hL with hu | ⟨x, rfl, hu⟩
+  · rw [hu, cnf_flat (f + 3) L hL]
+    have hr := unionOfList_flat (f + 2) L hL
+    rw [multiOf_one f _ (flatNF_notMulti _ hr)]
+    simp only [flatNF_notMulti _ hr, Bool.not_false, if_true]
+    exact hr
+  · rw [hu]
+    have hx := hL x (List.mem_cons_self ..)
+    rw [cnf_single _ x hx]
+    have : x.isMulti = false := by cases x <;> simp [isSingle] at hx <;> rfl
+    simp only [this, Bool.not_false, if_true]
+    exact Or.inr (Or.inr (Or.inl hx))
+
+/-- **C15 for `|` on flat disjunctions**, every fuel ≥ 6 -/
+theorem or_flat (f : Nat) (a b : M) (ha : FlatDisj a) (hb : FlatDisj b) : FlatNF false (M.or (f + 6) a b) := by
+  rcases ha with ha | ⟨la, rfl, hla⟩
+  · rcases hb with hb | ⟨lb, rfl, hlb⟩
+    · rcases or_single_shape (f + 4) a b ha hb with ⟨m, hs, hm⟩ | ⟨p, q, _, hm, hpq, hp, hq⟩
+      · rw [hm]
+        exact atomic_flatNF false m (singleOr_done_atomic a b m hs)
+      · rw [hm]
+        right; right; right
+        refine ⟨[p, q], by simp, by simp, ?_, ?_⟩
+        · simp [NoDup, memB, hpq]
+        · intro x hx; simp only [List.mem_cons, List.mem_nil_iff, or_false] at hx; rcases hx with rfl | rfl <;> assumption
+    · have : M.or (f + 6) a (.union lb) = unionOf (f + 5) [.union lb, a] := by
+        cases a <;> simp [isSingle] at ha <;> simp [M.or]
+      rw [this]
+      exact unionOf_flat f _ _ (Or.inr ⟨lb, rfl, hlb⟩) (Or.inl ha) rfl (by cases a <;> simp [isSingle] at ha <;> rfl)
+  · have : M.or (f + 6) (.union la) b = unionOf (f + 5) [.union la, b] := by simp [M.or]
+    rw [this]
+    have hbe : b.isEmpty = false := by
+      rcases hb with hb | ⟨lb, rfl, _⟩
+      · cases b <;> simp [isSingle] at hb <;> rfl
+      · rfl
+    exact unionOf_flat f _ _ (Or.inr ⟨la, rfl, hla⟩) hb rfl hbe
+
+/-! non-vacuity: concrete flat operands, and what the model computes for them -/
+
+def atomA : M := .expr ⟨"os_name", .eq, "a", false, .gen ⟨.eq, "a"⟩⟩
+def atomB : M := .expr ⟨"sys_platform", .ne, "b", false, .gen ⟨.ne, "b"⟩⟩
+def atomC : M := .expr ⟨"platform_machine", .eq, "c", false, .gen ⟨.eq, "c"⟩⟩
+
+example : FlatConj (.multi [atomA, atomB]) ∧ FlatConj atomC :=
+  ⟨Or.inr ⟨_, rfl, by intro x hx; simp at hx; rcases hx with rfl | rfl <;> rfl⟩, Or.inl rfl⟩
+
+example : beq (M.and 8 (.multi [atomA, atomB]) atomC) (.multi [atomA, atomB, atomC]) = true := by decide
+example : beq (M.or 8 (.union [atomA, atomB]) atomC) (.union [atomA, atomB, atomC]) = true := by decide
+example : beq (M.and 8 (.multi [atomA, atomB]) atomA) (.multi [atomA, atomB]) = true := by decide
 
 end C15
 end DepLogic
